@@ -34,8 +34,16 @@ def from_program(prog, unnamed_switch=False, generic=()):
     return d
 
 
+def expected_entry(x):
+    """what the viewer must show for a real node (mirrors emit())"""
+    if x.get('generic'):
+        return {'ename': x['id'], 'everbose': 'null', 'edoc': 'generic base of %s' % x['id'], 'egeneric': True}
+    return {'ename': x['id'], 'everbose': 'Node ' + x['id'], 'edoc': 'does the work of %s' % x['id'], 'egeneric': False}
+
+
 def to_tla(d):
-    return {'name': d['name'], 'decls': [{'id': x['id'], 'defect': x['defect'], 'marks': x['marks']} for x in d['decls']],
+    return {'name': d['name'], 'decls': [dict({'id': x['id'], 'defect': x['defect'], 'marks': x['marks']}, **expected_entry(x))
+                                         for x in d['decls']],
             'order': {x['id']: i + 1 for i, x in enumerate(d['decls'])}, 'input': d['input'], 'output': d['output']}
 
 
